@@ -41,3 +41,17 @@ class Recorder:
 
     def names(self):
         return [e.name for e in self.events]
+
+
+def same_scope(a, b):
+    """the parser is back in the block it was in: same kind of state, same class / namespace, same chain of parents (an
+    implementation may rebuild equal state objects, so identity is not required)"""
+    while a is not None and b is not None:
+        if type(a) is not type(b):
+            return False
+        if getattr(a, "class_decl", None) != getattr(b, "class_decl", None):
+            return False
+        if getattr(a, "namespace", None) != getattr(b, "namespace", None):
+            return False
+        a, b = getattr(a, "parent", None), getattr(b, "parent", None)
+    return a is None and b is None
